@@ -63,7 +63,9 @@ ASSUMPTIONS = [
     "numpy.random.seed / torch.manual_seed is a runtime fact, sampled",
     "IEEE round-off is absent from the theorems; non-representable cases are compared under the stated tolerance and "
     "counted as hypothesis_gap_cases",
-    "NaN / inf samples and coefficients, 0-d arrays (IndexError) are outside the quantifier",
+    "NaN / inf samples and coefficients, 0-d arrays (IndexError) are outside the quantifier; so is a negative Dither "
+    "coeff (not a standard deviation): code and model both answer ValueError today, which is counted in the histogram "
+    "but not enforced",
 ]
 LEVEL_TEXT = (
     "Full proof (all lengths, any ring / field, no bounds): Preemphasize's simultaneous slice update equals the "
@@ -198,6 +200,16 @@ def lanes(shape, axis):
         yield idxs
 
 
+def finite_or_violation(ctx, case, arr, op):
+    """All generated inputs are finite and far from overflow, so a non-finite output is never right."""
+    a = np.asarray(arr)
+    if a.dtype.kind == "f" and not np.isfinite(a).all():
+        ctx.violation(case, "finite values", a.ravel().tolist()[:20], "finite, moderate inputs give finite outputs",
+                      tags=dict(op=op, clause="non_finite"))
+        return False
+    return True
+
+
 def value_ok(got, q, tol, dtype):
     """Is implementation value `got` (Fraction) acceptable for exact value q with absolute tolerance tol?"""
     if dtype in INT_RANGE:
@@ -284,6 +296,8 @@ def run_pre_case(ctx, case, lines, pending):
     x_other = x0.copy()
     y_other = call_apply(P.Preemphasize(coeff), x_other, axis, not ip)
     tags = dict(op="pre")
+    if not (finite_or_violation(ctx, case, y, "pre") and finite_or_violation(ctx, case, x, "pre")):
+        return
     # ---- structure
     if y.dtype != x0.dtype or list(y.shape) != list(shape):
         ctx.violation(case, [dtype, shape], [str(y.dtype), list(y.shape)], "result has the input's dtype and shape",
@@ -413,6 +427,8 @@ def run_torch_pre_case(ctx, case, lines, pending):
         ctx.violation(case, [dtype, [n]], [str(yt.dtype), list(yt.shape)], "torch result has the input's dtype and shape", tags=dict(tags, clause="dtype_shape"))
         return
     ynp = call_apply(np_obj, x.copy(), None, False)
+    if not (finite_or_violation(ctx, case, yt.numpy(), "pre_torch") and finite_or_violation(ctx, case, ynp, "pre")):
+        return
     xs = [fr(v) for v in x]
     c = fr(coeff)
     q, tol = pre_exact(xs, c)
@@ -529,6 +545,8 @@ def run_dither_case(ctx, case, lines, pending):
     if y.dtype != x0.dtype or list(y.shape) != list(shape):
         ctx.violation(case, [dtype, shape], [str(y.dtype), list(y.shape)], "result has the input's dtype and shape", tags=dict(tags, clause="dtype_shape"))
         return
+    if not (finite_or_violation(ctx, case, y, "dither") and finite_or_violation(ctx, case, x, "dither")):
+        return
     shares = bool(np.shares_memory(y, x)) if x.size else None  # empty arrays own no memory to share
     if not ip and (x.tobytes() != x0.tobytes() or shares):
         ctx.violation(case, "input untouched, result not aliased", dict(input_after=x.ravel().tolist()[:20], shares=shares),
@@ -546,6 +564,8 @@ def run_dither_case(ctx, case, lines, pending):
     # the noise vector, read through the public API: coefficient 1 on a float64 zero signal, same seed / shape / axis
     zeros = np.zeros(shape, dtype=np.float64)
     z = seeded_dither(P, 1.0, zeros, axis, False, seed)
+    if not finite_or_violation(ctx, case, z, "dither"):
+        return
     # axis semantics: noise is constant along every axis but `axis`
     if axis is not None and len(shape) > 1 and z.size:
         ref = np.moveaxis(z, axis, 0).reshape(shape[axis], -1)
@@ -565,6 +585,8 @@ def run_dither_case(ctx, case, lines, pending):
         xf = x0.astype(np.float64)
         ya = seeded_dither(P, coeff, xf.copy(), axis, False, seed)
         yb = seeded_dither(P, c2, x2.copy(), axis, False, seed)
+        if not (finite_or_violation(ctx, case, ya, "dither") and finite_or_violation(ctx, case, yb, "dither")):
+            return
         na = [(fr(a) - fr(b)) / c for a, b in zip(ya.ravel(), xf.ravel())]
         nb = [(fr(a) - fr(b)) / fr(c2) for a, b in zip(yb.ravel(), x2.ravel())]
         for i, (u, v) in enumerate(zip(na, nb)):
@@ -660,6 +682,8 @@ def run_torch_dither_case(ctx, case, lines, pending):
     if coeff == 0 and not torch.equal(y, t0):
         ctx.violation(case, t0.tolist()[:20], y.tolist()[:20], "coeff 0 is the identity", tags=dict(tags, clause="coeff_zero"))
     z = go(1.0, torch.zeros_like(t0))
+    if not (finite_or_violation(ctx, case, y.numpy(), "dither_torch") and finite_or_violation(ctx, case, z.numpy(), "dither_torch")):
+        return
     xs = [fr(v) for v in t0.tolist()]
     zs = [fr(v) for v in z.tolist()]
     ys = [fr(v) for v in y.tolist()]
@@ -728,13 +752,13 @@ FIXED_PRE = [
 def generate(ctx):
     r = ctx.rng
     cases = list(FIXED_PRE)
-    for _ in range(ctx.scale(5000, 40000)):
+    for _ in range(ctx.scale(5000, 200000)):
         cases.append(pre_case(r, ctx.tier))
-    for _ in range(ctx.scale(1200, 8000)):
+    for _ in range(ctx.scale(1200, 40000)):
         cases.append(torch_pre_case(r))
-    for _ in range(ctx.scale(2500, 15000)):
+    for _ in range(ctx.scale(2500, 75000)):
         cases.append(dither_case(r))
-    for _ in range(ctx.scale(800, 5000)):
+    for _ in range(ctx.scale(800, 25000)):
         cases.append(torch_dither_case(r))
     # small first, so that the first witness of a clause is a small one
     cases.sort(key=lambda c: int(np.prod(c["shape"])) if c["shape"] else 0)
@@ -755,11 +779,10 @@ def check_line(ctx, what, case, info, out):
     elif what in ("pre.torch", "dither.torch"):
         check_torch_line(ctx, what, case, info, out)
     elif what == "dither.err":
-        if out != info["got"]:
-            ctx.mismatch(case, out, info["got"], "negative coeff: model vs implementation")
-        if info["got"] != "err:ValueError":
-            ctx.violation(case, "ValueError", info["got"], "a negative standard deviation is rejected with ValueError",
-                          tags=dict(op=case["op"], clause="negative_coeff"))
+        # A negative "standard deviation" is outside the property's quantifier: today's code rejects it
+        # (np.random.normal / check_positive raise ValueError) and so does the model, but an implementation that
+        # accepted it would not break C18.  Observed and counted, never an alarm.
+        ctx.count("dither_negative_coeff_model_%s_impl_%s" % (out, info["got"]))
 
 
 def run(ctx, driver):
